@@ -20,8 +20,8 @@ Definition E_FOLD := 4.
 Definition E_EMPTY := 5.      (* .max() of an empty array *)
 Definition E_INDEX := 6.      (* sorted[n_valid-1] out of range *)
 Definition E_NOGENES := 7.    (* gene list without overlap *)
-Definition E_NOUP := 8.       (* no up-regulated marker in the whole table: chunks=(0,) *)
-Definition E_NODOWN := 9.
+(* codes 8 and 9 (no up- / down-regulated marker in the whole table: h5py refused chunks=(0,))
+   are retired: since the repair of F17 an empty direction is written as an empty array *)
 Definition E_INPUT := 10.     (* per-pair inputs do not match the number of pairs *)
 Definition pbind {A B} (r : pres A) (f : A -> pres B) : pres B :=
   match r with POk a => f a | PErr c => PErr c end.
@@ -84,7 +84,9 @@ Definition penetrance_parameter_distance (S : Z) (th : thresholds) (scores : lis
 Definition EPS_NUM : Z := 7737125245533627.
 Definition EPS_DEN : Z := 77371252455336267181195264.
 (* distance_sq < eps, distance_sq = g_true / (2 S S) *)
-Definition absolutely_valid (S : Z) (d : gdist) : bool := g_true d * EPS_DEN <? EPS_NUM * (2 * S * S).
+Definition within_eps (S : Z) (d : gdist) : bool := g_true d * EPS_DEN <? EPS_NUM * (2 * S * S).
+(* absolutely_valid = logical_and(distance_sq < eps, logical_not(invalid)) *)
+Definition absolutely_valid (S : Z) (d : gdist) : bool := within_eps S d && negb (g_invalid d).
 
 Definition count_true (l : list bool) : nat := length (filter (fun b => b) l).
 
@@ -201,8 +203,6 @@ Definition n_per_of (n_pairs n_processors : nat) : nat :=
   let m := Z.min 1000000 (Z.of_nat n_pairs / (2 * Z.of_nat n_processors)) in
   Z.to_nat (Z.max 8 (m - m mod 8)).
 
-Definition nil_b {A} (l : list A) : bool := match l with [] => true | _ => false end.
-
 Fixpoint pmap {A B} (f : A -> pres B) (l : list A) : pres (list B) :=
   match l with
   | [] => POk []
@@ -219,7 +219,8 @@ Definition gene_mask_of (gene_names : list Z) (gene_list : option (list Z)) : pr
   end.
 
 (* create_sparse_by_pair_marker_file: per pair (in idx order) the up and the down genes,
-   written per chunk and merged.  Result: (up_pair_idx, up_gene_idx, down_pair_idx, down_gene_idx) *)
+   written per chunk and merged.  Result: (up_pair_idx, up_gene_idx, down_pair_idx, down_gene_idx).
+   A direction without any marker gives an empty gene_idx array and an all-zero pair_idx. *)
 Definition find_markers (st : settings) (gene_names : list Z) (gene_list : option (list Z))
            (n_processors : nat) (pairs : list pair_in)
   : pres ((list nat * list nat) * (list nat * list nat)) :=
@@ -230,9 +231,7 @@ Definition find_markers (st : settings) (gene_names : list Z) (gene_list : optio
              let chunks := chunk_list (length uds) n_per uds in
              let ups := merge_sparse (map (fun ch => lookup_to_sparse (map fst ch)) chunks) 0 in
              let downs := merge_sparse (map (fun ch => lookup_to_sparse (map snd ch)) chunks) 0 in
-             if nil_b (snd ups) then PErr E_NOUP
-             else if nil_b (snd downs) then PErr E_NODOWN
-             else POk (ups, downs))).
+             POk (ups, downs))).
 
 (* ------------------------------------------------------------------ *)
 (* the p-value-mask route                                              *)
@@ -312,9 +311,7 @@ Definition find_markers_from_mask (SD : Z) (n_valid : nat) (gene_names : list Z)
            let chunks := chunk_list (length uds) n_per uds in
            let ups := merge_sparse (map (fun ch => lookup_to_sparse (map fst ch)) chunks) 0 in
            let downs := merge_sparse (map (fun ch => lookup_to_sparse (map snd ch)) chunks) 0 in
-           if nil_b (snd ups) then PErr E_NOUP
-           else if nil_b (snd downs) then PErr E_NODOWN
-           else POk (ups, downs)).
+           POk (ups, downs)).
 
 (* ------------------------------------------------------------------ *)
 (* wire                                                                *)
